@@ -233,10 +233,12 @@ type scenario struct {
 
 	// monitor state (independent of the Lean model)
 	member       map[int]bool // definitely a member in the sense of the statement
+	maybe        map[int]bool // possibly a member: its Add raced the end of a member
 	offered      map[int]bool // every context ever passed to NewPool/Add
 	cancelCalled bool
 	expSize      int
 	sizeAmbig    bool
+	lateAdd      bool // the last Add was offered when every current context of the pool was done
 	broken       bool
 }
 
@@ -272,6 +274,15 @@ func (s *scenario) liveMember() (int, bool) {
 		}
 	}
 	return 0, false
+}
+
+func (s *scenario) liveMaybe() bool {
+	for id := range s.maybe {
+		if !s.ctx(id).ended {
+			return true
+		}
+	}
+	return false
 }
 
 func (s *scenario) allOfferedEnded() bool {
@@ -363,11 +374,15 @@ func (s *scenario) observe(after string) {
 		s.expSize = size
 		s.sizeAmbig = false
 	default:
-		if size != s.expSize {
+		if size == s.expSize+1 && s.lateAdd {
+			s.violate("size-counts-late-add", fmt.Sprintf("Size()=%d counts a context that was offered when every current context of the pool was done (expected %d, after %s)", size, s.expSize, after))
+			s.expSize = size
+		} else if size != s.expSize {
 			s.violate("size-mismatch", fmt.Sprintf("Size()=%d, expected %d tracked contexts (after %s)", size, s.expSize, after))
 			s.expSize = size
 		}
 	}
+	s.lateAdd = false
 	// M4 watcher ends with the pool
 	if quiet && park == 0 {
 		if done && alive {
@@ -377,18 +392,31 @@ func (s *scenario) observe(after string) {
 			s.violate("watcher-gone-pool-live", "watcher goroutine is gone but the pool context is not done after "+after)
 		}
 	}
-	// classification of Adds that raced the end of the last member
-	if !done && !s.cancelCalled && quiet && park == 0 {
-		if _, ok := s.liveMember(); !ok {
-			s.out.hits = append(s.out.hits, "window:late-add-tracked(pool waits for a context added after the last member ended)")
+	// M6 every member has ended (and some other offered context has not): the pool must be done.
+	// A context is a member only if it was passed at creation or its Add took effect while the
+	// pool was live and a member was live; a context whose Add raced a member's end may be one.
+	if !done && !s.cancelCalled && quiet && park == 0 && !s.allOfferedEnded() {
+		if _, ok := s.liveMember(); !ok && !s.liveMaybe() {
+			s.violate("late-add-tracked-after-members-ended", fmt.Sprintf("after %s: every member of the pool has ended and the watcher is quiescent, but the pool context is not done: the pool waits for a context that was offered when no member was live", after))
 		}
 	}
 }
 
-func (s *scenario) doAdd(id int, racing bool) {
+// doAdd calls Add(ctx id). racingEnd >= 0: the call runs concurrently with the end of that context.
+func (s *scenario) doAdd(id int, racingEnd int) {
 	p := s.ctx(id)
 	doneBefore := s.pool.Err() != nil
-	_, liveBefore := s.liveMember()
+	// a definite member other than the one ending concurrently is live during the whole call
+	liveBefore := false
+	for m := range s.member {
+		if m != racingEnd && !s.ctx(m).ended {
+			liveBefore = true
+		}
+	}
+	// undecided: only the context ending concurrently, or a context whose own Add was undecided, is live
+	undecided := !liveBefore && (s.liveMaybe() || (racingEnd >= 0 && s.member[racingEnd] && !s.ctx(racingEnd).ended) ||
+		(racingEnd >= 0 && s.maybe[racingEnd] && !s.ctx(racingEnd).ended))
+	racing := racingEnd >= 0
 	r := call(func() { s.pool.Add(p.ctx) })
 	if r != "ok" {
 		s.violate("op-"+strings.SplitN(r, ":", 2)[0], fmt.Sprintf("Add(ctx%d): %s", id, r))
@@ -401,13 +429,19 @@ func (s *scenario) doAdd(id int, racing bool) {
 	case s.cancelCalled:
 	case doneBefore:
 		// add_after_done_ignored: Size must not change
-	case !doneAfter && !racing:
+	case liveBefore:
+		// pool live, a member live: the context is tracked
 		s.expSize++
-	default:
+	case undecided:
 		s.sizeAmbig = true
+	default:
+		// every current context of the pool is done: "the context is ignored" (doc of Add)
+		s.lateAdd = true
 	}
-	if !racing && !doneAfter && liveBefore {
+	if !doneAfter && liveBefore {
 		s.member[id] = true
+	} else if !doneAfter && !doneBefore && undecided && !s.member[id] {
+		s.maybe[id] = true
 	}
 	at, _ := tr.parked()
 	kind := "live"
@@ -452,7 +486,7 @@ func runCase(c *Case) *outcome {
 		return runStorm(c)
 	}
 	out := &outcome{}
-	s := &scenario{c: c, out: out, ctxs: map[int]*ctxPair{}, member: map[int]bool{}, offered: map[int]bool{}}
+	s := &scenario{c: c, out: out, ctxs: map[int]*ctxPair{}, member: map[int]bool{}, maybe: map[int]bool{}, offered: map[int]bool{}}
 	// no watcher of an earlier scenario may be around
 	if q, _, n := settle(); n != 0 {
 		out.notes = append(out.notes, fmt.Sprintf("stale watcher goroutines before scenario: %d quiet=%v", n, q))
@@ -515,7 +549,7 @@ func runCase(c *Case) *outcome {
 			}
 			s.observe(name)
 		case "add":
-			s.doAdd(op.C[0], false)
+			s.doAdd(op.C[0], -1)
 			if s.broken {
 				break
 			}
@@ -552,7 +586,7 @@ func runCase(c *Case) *outcome {
 				defer wg.Done()
 				<-start
 				if a >= 0 {
-					s.doAdd(a, true)
+					s.doAdd(a, e)
 				} else {
 					s.doCancel()
 				}
@@ -560,11 +594,11 @@ func runCase(c *Case) *outcome {
 			close(start)
 			wg.Wait()
 			s.ctx(e).ended = true
-			out.lines = append(out.lines, fmt.Sprintf("end c=%d", e))
+			// the two linearise in one of the two orders; the driver keeps the union
 			if a >= 0 {
-				out.lines = append(out.lines, fmt.Sprintf("add c=%d", a))
+				out.lines = append(out.lines, fmt.Sprintf("race e=%d c=%d", e, a))
 			} else {
-				out.lines = append(out.lines, "cancel")
+				out.lines = append(out.lines, fmt.Sprintf("race e=%d cancel=1", e))
 			}
 			s.observe(name)
 		}
@@ -656,7 +690,7 @@ func runStorm(c *Case) *outcome {
 		}
 		mu.Unlock()
 	}
-	var member [maxID]atomic.Bool
+	var member, maybe [maxID]atomic.Bool
 	offered := map[int]bool{}
 	ended := map[int]bool{}
 	for _, id := range c.Ended {
@@ -741,8 +775,13 @@ func runStorm(c *Case) *outcome {
 			yield(r)
 			addsStarted.Add(1)
 			pool.Add(ctxs[id].ctx)
-			if pool.Err() == nil && anyLiveMember() {
-				member[id].Store(true)
+			if pool.Err() == nil {
+				if anyLiveMember() {
+					member[id].Store(true)
+				} else {
+					// a member whose cancel had started may still have been live when the Add took effect
+					maybe[id].Store(true)
+				}
 			}
 		}
 	})
@@ -823,6 +862,17 @@ func runStorm(c *Case) *outcome {
 			if member[i].Load() && !ctxs[i].started.Load() {
 				violate("done-while-member-live", fmt.Sprintf("storm (final): pool context done although member ctx%d has not ended", i))
 			}
+		}
+	}
+	if quiet && !done && !cancelStarted.Load() && !allEnded {
+		undecided := false
+		for i := range member {
+			if (member[i].Load() || maybe[i].Load()) && !ctxs[i].started.Load() {
+				undecided = true
+			}
+		}
+		if !undecided {
+			violate("late-add-tracked-after-members-ended", "storm (final): every member (and every context whose Add raced a member's end) has ended, the watcher is quiescent, but the pool context is not done")
 		}
 	}
 	if quiet && done && alive {
